@@ -36,6 +36,7 @@ fn main() {
         "C06" => c06::run_prop(&cli),
         "C07" => c07::run_prop(&cli),
         "C08" => c08::run_prop(&cli),
+        "C05" => c08::run_cipher_switch(&cli),
         "C10" => c10::run_prop(&cli),
         other => {
             println!("[{other}] INCONCLUSIVE: vp-conn does not serve this property");
